@@ -55,8 +55,16 @@ func generated(c *ctx, r *lib.Rand, tier string) {
 		n = 25000
 	}
 	for i := 0; i < n; i++ {
+		if i%61 == 60 && len(c.deferred) > 0 {
+			c.deferred[0]()
+			c.deferred = c.deferred[1:]
+		}
 		size := 25 + r.Intn(50)
 		src := genProgram(r.Fork(), size)
 		c.process(input{Kind: "src", Src: src, Run: true}, src, "gen", "generated", nil, nil)
 	}
+	for _, f := range c.deferred {
+		f()
+	}
+	c.deferred = nil
 }
